@@ -317,7 +317,7 @@ func checkLog(t ev.Failer, c *ev.Collector, ss *subState, b *built, cuts []int) 
 					"torn_command": t38.CmdString(b.cmds[ci.k]), "offset_in_command": ci.relStart, "complete_before": ci.k, "file_after_recovery": ci.hi})
 			}
 		}
-		if ci.inside || padded {
+		if ci.inside || padded || ci.healthyMulti {
 			c.NonTrivial(fmt.Sprintf("%s@%d", b.id, ci.cut))
 		}
 	}
@@ -433,7 +433,7 @@ func allCuts(b *built) []int {
 	return out
 }
 
-const ruleCommon = " For each cut c the file log[:c] is written as appendonly.aof into a fresh directory and the real server is started on it: it must start; the file must be cut back to the end of the last complete command (NUL padding in front of the torn command may stay: any length between the last complete command and the start of the torn one is accepted, and for a cut on a boundary / inside a NUL run the file must keep its length or lose only padding) with its kept bytes unchanged; SERVER aof_size must equal the file length; the dump (all keys, objects, fields, TTL flags, hooks, channels) must equal the model replay of the commands wholly before c; one more SET must be acknowledged and sit byte-exactly behind the kept bytes; after a clean stop and a second start the file must be unchanged and the dump must equal previous model + that SET. Non-trivial: the cut is strictly inside a command, or the cut file ends in / right behind NUL padding (classified: in the *n header, in a $n header, inside bulk data, between CR and LF, before the bulk CRLF, at an argument boundary; flags: read-chunk straddle, after a NUL run, binary bytes before the cut); distinct by (log digest, cut offset)."
+const ruleCommon = " For each cut c the file log[:c] is written as appendonly.aof into a fresh directory and the real server is started on it: it must start; the file must be cut back to the end of the last complete command (NUL padding in front of the torn command may stay: any length between the last complete command and the start of the torn one is accepted, and for a cut on a boundary / inside a NUL run the file must keep its length or lose only padding) with its kept bytes unchanged; SERVER aof_size must equal the file length; the dump (all keys, objects, fields, TTL flags, hooks, channels) must equal the model replay of the commands wholly before c; one more SET must be acknowledged and sit byte-exactly behind the kept bytes; after a clean stop and a second start the file must be unchanged and the dump must equal previous model + that SET. Non-trivial: the cut is strictly inside a command, or the cut file ends in / right behind NUL padding, or it ends on a command boundary but needs more than one 65535-byte read (healthy multi-read file, must come back unchanged) (classified: in the *n header, in a $n header, inside bulk data, between CR and LF, before the bulk CRLF, at an argument boundary; flags: read-chunk straddle, after a NUL run, binary bytes before the cut); distinct by (log digest, cut offset)."
 
 // ---- sub-checks ----------------------------------------------------------------
 
